@@ -7,7 +7,7 @@ Gen  : each value is evaluated through `version --source stdin --output-template
 Trace: the context of random objects ({{ semver }}, {{ pep440 }}, the *_obj recompositions, the
        docker form, the scalar variables) is judged against Render.tla; random calls of sanitize
        (presets and every subset of custom parameters), hash, hash_int, prefix, prefix_if and
-       format_timestamp (anchor instants, strftime subset, recorded under a non-UTC TZ) with
+       format_timestamp (instants from 1970 to 9999-12-31 incl. the first 11-digit timestamps, strftime subset, recorded under a non-UTC TZ) with
        hostile values are judged against Template.tla (Trace_Template).
 """
 import os
@@ -50,6 +50,8 @@ def run(tier):
         tbad += len(bad)
         for i, ev in bad:
             why = ev.get("_reason", "?")
+            if why == "recorder-civil-fields":
+                raise core.ToolError("the recorder's civil fields do not satisfy Calendar!ValidCivil: %r" % ev["inst"])
             m = dict(key="C15:" + why, line=i, trace=path, kind=ev["k"])
             if ev["k"] == "ctx":
                 m.update(schema=ev["sch"], observed={f: (x["kind"], core.cp_text(x["s"])) for f, x in ev.items() if isinstance(x, dict) and "kind" in x},
